@@ -173,18 +173,14 @@ fn analyzer_route(thorough: bool) -> (u64, Vec<(String, String, String)>) {
         "10 PRINT 1", "", " ", "\r", "\t ", "20 X=\"\u{e9}\"", "30 REM x ", "PRINT", "10", "40 %", " 50 A$ = 1", "60 DATA a, b\r", "70 \"", "80 ?1;2", "\u{c}", "10 \u{a0}", "10 PRINT 12345", "10 PRINT B", "20 GOTO 99", "\u{a0}30 PRINT 1",
         // the statement text of the first line under a line number of another width
         "100 PRINT 1",
+        // a line that stops tokenizing after several good tokens
+        "90 PRINT 1 %",
     ];
     let n = if thorough { 4 } else { 3 };
     let base = set.len() as u64;
     let mut files = 0u64;
     let mut out = vec![];
-    for len in 1..=n {
-        let count = pow(base, len);
-        files += count;
-        let res: Vec<(String, String, String)> = (0..count)
-            .into_par_iter()
-            .filter_map(|i| {
-                let lines: Vec<&str> = decode_seq(i, base, len).iter().map(|k| set[*k]).collect();
+    let check_file = |lines: Vec<&str>| -> Option<(String, String, String)> {
                 let text = lines.join("\n");
                 let t2 = text.clone();
                 let (a, own) = match guarded(move || {
@@ -286,9 +282,32 @@ fn analyzer_route(thorough: bool) -> (u64, Vec<(String, String, String)>) {
                     }
                 }
                 None
-            })
+    };
+    for len in 1..=n {
+        let count = pow(base, len);
+        files += count;
+        let res: Vec<(String, String, String)> = (0..count)
+            .into_par_iter()
+            .filter_map(|i| check_file(decode_seq(i, base, len).iter().map(|k| set[*k]).collect()))
             .collect();
         out.extend(res);
+    }
+    // lines longer than 16-bit offsets reach: tokens and located diagnostics beyond byte 65535
+    {
+        let pad = "x".repeat(70000);
+        let long: Vec<String> = vec![
+            format!("10 A$ = \"{}\": Y = 1", pad),
+            format!("10 PRINT \"{}\"; Q9", pad),
+            format!("10 REM {}\n20 PRINT ZZ", pad),
+            format!("10 PRINT 1: B$ = \"{}\": PRINT W7 + 1: GOTO 99", &pad[..65520]),
+        ];
+        files += long.len() as u64;
+        for t in &long {
+            if let Some((s, d, _)) = check_file(t.split('\n').collect()) {
+                let cut = |x: String| if x.len() > 400 { format!("{}...", x.chars().take(400).collect::<String>()) } else { x };
+                out.push((format!("{} (line longer than 65535 bytes)", s), cut(d), t.clone()));
+            }
+        }
     }
     (files, out)
 }
